@@ -12,7 +12,7 @@
     Budget T (stated in the evidence): CPU seconds of the solve process, which with the single worker thread (-j 1) of
     the main sweep is the solve's own work and does not depend on the load of the machine; 1.2 GB resident memory;
     a wall-clock backstop for deadlocks.  First pass: 20 CPU-s (thorough 60).  What exceeds it is re-run ALONE, one
-    after the other, with the hard cap (quick 45 CPU-s, thorough 900): only exceeding the hard cap alone (or the memory
+    after the other, with the hard cap (quick 30 CPU-s, thorough 900): only exceeding the hard cap alone (or the memory
     cap) is a violation `timeout-hard` -- this is how a hang is caught.  Soft budget max(20 s, 30 x median CPU time of
     the class (algorithm, goal, digits bucket, degree bucket)): runs above it are counted `slow`, never reported.
     Threads: the main sweep is single-threaded (reproducible); a separate small group runs with -j 2..8 and is judged
@@ -517,7 +517,7 @@ def run(ctx):
     ctx.log("jobs: %d single-threaded + %d multi-threaded (pairwise rows: %s)" % (len(jobs), len(mt_jobs), "replay" if ctx.replay else len(rows)))
 
     T1 = ctx.pick(20, 60)        # CPU seconds, first pass
-    HARD = ctx.pick(45, 900)     # CPU seconds, the budget that decides
+    HARD = ctx.pick(30, 900)     # CPU seconds, the budget that decides
     alljobs = jobs + mt_jobs
     def go(ij, cap=None, wall=None):
         i, j = ij
